@@ -7,8 +7,20 @@ spec/submit/Distributor.tla: policy totals by lifetime and eligibility of a log 
 Binding: real submission.GetSCTs under virtual time with a scripted Submitter over every outcome x latency assignment
 (property clauses checked on every result), H4 events (emitted under the mutex) validated by SubmissionTrace.tla,
 Distributor.AddChain cases replayed, and the race detector on concurrent submissions / weight changes / refreshes.
+
+spec/submit/ProxyLifecycle.tla: WHICH log list a submission runs against - the refresher (read / compare / parse), the
+LogListManager's ticker goroutine and its two capacity-1 channels, the proxy loop (builder, swap under distMu, Init), one
+root refresher per distributor generation, submissions reading p.dist, cancellation; safety exhaustively on small constants
+(several configurations, each leaving one component out), liveness under fairness, three named observations that TLC is
+expected to refute.  Binding: behaviours simulated by TLC (MCProxyLifecycleSim) are replayed against the real
+NewProxy + NewLogListManager + NewCustomLogListRefresher under virtual time with gates at the list read, the builder,
+get-roots and add-chain; everything recorded is validated by ProxyLifecycleTrace.tla (silent steps for the critical
+sections that cannot be seen, quiescence demanded at every observation); an ungated concurrent run under the race
+detector is judged by order-based monitors.
 """
+import json
 import os
+from concurrent.futures import ThreadPoolExecutor
 
 from vlib import Infra
 
@@ -23,6 +35,20 @@ def run(ctx, replay=None):
         "TLC runs use the N=2 layouts, hang outcomes and cancellation are model-checked on the Apple layout",
         "data-race freedom is judged by the Go race detector on the concurrent scenarios of TestRaces",
     ]
+    if replay:
+        with open(replay) as f:
+            rp = json.load(f)
+        beh = rp.get("replay") or {}
+        if isinstance(beh, dict) and "steps" in beh and "gates" in beh:
+            proxy_replay(ctx, [beh])
+            return
+        ctx.log("replay file carries no proxy behaviour; running the whole check")
+    # 0. the log-list / distributor life-cycle of the proxy
+    only = os.environ.get("VERIF_C17_ONLY", "")     # development aid: "proxy" / "proxybind" / "submission" run a part
+    if only != "submission":
+        proxy_lifecycle(ctx, model=(only != "proxybind"))
+    if only in ("proxy", "proxybind"):
+        return
     # 1. goroutine-level model: safety exhaustively, liveness on the smallest layouts
     ctx.tlc("submit", "MCSubmission", "SubmissionChrome2Safety.cfg", timeout=3000)
     ctx.tlc("submit", "MCSubmission", "SubmissionAppleSafety.cfg", timeout=3000)
@@ -78,3 +104,133 @@ def validate(ctx, outdir):
                           {"stuck": stuck, "violated": r.violated, "trace_window": lines[lo - 1:at + 1]})
         else:
             ctx.traces += n
+
+
+# ------------------------------------------------------------------------------------------------------------------
+# the proxy life-cycle (spec/submit/ProxyLifecycle.tla)
+
+PL_SAFETY = (["CoreN", "CoreU", "Roots", "Subs2", "Sub1"], ["RootsT3", "RootsBig", "Roots3", "Sub1T2", "Subs2Big"])
+PL_LIVE = (["Live"], ["LiveCancel", "LiveRoots", "LiveCancelRoots", "LiveBig"])
+# named observations: what the code does and the specification says it does; TLC must REFUTE the stricter statement
+PL_OBS = ([("ObsLeak", "NoTickerLeak"), ("ObsStrictStop", "StrictStop")], [("ObsTickerStops", "TickerStops")])
+
+
+def proxy_lifecycle(ctx, model=True):
+    ctx.assumptions += [
+        "proxy life-cycle: log-list versions A, B (C) good, U unparsable, N refused by the DistributorBuilder; time in "
+        "units of the log-list refresh interval, root refresh every 1-2 units; exhaustive runs bound the number of "
+        "emissions (2-4), leave out either the root refreshers or the submissions, and use the 3-log catalogue",
+        "proxy replay: the harness acts only when every goroutine is blocked (synctest.Wait); interleavings inside one such "
+        "step are the Go scheduler's; every recorded run must be a behaviour of ProxyLifecycle.tla with quiescence at each "
+        "observation",
+    ]
+    jobs = [("safety", c, None) for c in PL_SAFETY[0]] + [("live", c, None) for c in PL_LIVE[0]] + \
+           [("obs", c, v) for c, v in PL_OBS[0]]
+    if ctx.thorough():
+        jobs += [("safety", c, None) for c in PL_SAFETY[1]] + [("live", c, None) for c in PL_LIVE[1]] + \
+                [("obs", c, v) for c, v in PL_OBS[1]]
+
+    def one(job):
+        kind, cfg, want = job
+        r = ctx.tlc("submit", "MCProxyLifecycle", "ProxyLifecycle%s.cfg" % cfg, workers=4, count=False,
+                    expect_violation=(kind == "obs"), timeout=ctx.pick(1500, 7200))
+        return job, r
+
+    with ThreadPoolExecutor(max_workers=3) as ex:
+        results = list(ex.map(one, jobs if model else []))
+    for (kind, cfg, want), r in results:
+        if kind == "obs":
+            if r.violated != want and ("Temporal property %s was violated" % want) not in r.out:
+                raise Infra("named observation %s: TLC was expected to refute %s but reported %r" % (cfg, want, r.violated))
+            ctx.notes.setdefault("proxy-lifecycle-observations", {})[cfg] = "refuted by TLC, as the code behaves (not asserted)"
+        else:
+            ctx.states += r.distinct
+            ctx.transitions += r.generated
+    # behaviours -> real proxy -> trace validation
+    r = ctx.tlc("submit", "MCProxyLifecycleSim", "ProxyLifecycleSim.cfg", simulate=ctx.pick(250, 4000), depth=3000,
+                count=False, timeout=3000)
+    behs = r.records.get("BEH", [])
+    cat = r.records.get("CAT", [])
+    if not behs or not cat:
+        raise Infra("the simulation exported no behaviours / no catalogue")
+    if ctx.thorough():   # longer behaviours: up to 12 emissions, 48 steps
+        r2 = ctx.tlc("submit", "MCProxyLifecycleSim", "ProxyLifecycleSimLong.cfg", simulate=1200, depth=6000, count=False, timeout=3000)
+        if not r2.records.get("BEH"):
+            raise Infra("the long simulation exported no behaviours")
+        behs = behs + r2.records["BEH"]
+    proxy_replay(ctx, behs, cat[0])
+    # ungated concurrent runs under the race detector
+    race_test(ctx, "TestProxyConcurrent$", "proxy-concurrent",
+              {"VERIF_PROXY_CAT": catalogue_file(ctx, cat[0]), "VERIF_PROXY_ROUNDS": ctx.pick(6, 40)})
+    if ctx.thorough():
+        # a sample of the replayed behaviours once more, under the race detector (no trace validation here)
+        path = ctx.write_ndjson("proxy-behaviours-race.ndjson", behs[:400])
+        race_test(ctx, "TestProxyReplay$", "proxy-replay-race",
+                  {"VERIF_PROXY_CAT": catalogue_file(ctx, cat[0]), "VERIF_PROXY_BEHS": path, "VERIF_PROXY_RECHECK": 1})
+
+
+def race_test(ctx, run, name, env):
+    """go test -race under synctest with go1.26.8: the race runtime occasionally aborts ("ThreadSanitizer: CHECK failed",
+    SIGSEGV inside the timer code) - a toolchain fault, not a verdict; such a run is repeated."""
+    for attempt in range(6):
+        nv = len(ctx.violations)
+        out, _, reps = ctx.go_test("vt/c17", run=run, toolchain="go1.26", race=True, timeout=3000,
+                                   name="%s%d" % (name, attempt), env=env, allow_fail=True)
+        if reps or len(ctx.violations) > nv or ctx._repo_crash(out) or "WARNING: DATA RACE" in out:
+            return
+        if "ThreadSanitizer: CHECK failed" in out or "SIGSEGV: segmentation violation" in out:
+            ctx.log("race runtime aborted (toolchain fault); retrying (%d)" % (attempt + 1))
+            continue
+        raise Infra("%s failed without a report\n%s" % (run, "\n".join(out.splitlines()[-40:])))
+    raise Infra("%s: the race runtime aborted six times in a row" % run)
+
+
+def catalogue_file(ctx, cat):
+    path = os.path.join(ctx.work, "proxy-catalogue.json")
+    with open(path, "w") as f:
+        json.dump(cat, f)
+    return path
+
+
+def proxy_replay(ctx, behs, cat=None):
+    if cat is None:
+        r = ctx.tlc("submit", "MCProxyLifecycleSim", "ProxyLifecycleSim.cfg", simulate=1, depth=3000, count=False)
+        cat = r.records.get("CAT", [None])[0]
+        if cat is None:
+            raise Infra("no catalogue exported")
+    path = ctx.write_ndjson("proxy-behaviours.ndjson", behs)
+    out, outdir, _ = ctx.go_test("vt/c17", run="TestProxyReplay$", toolchain="go1.26", race=False, timeout=3000, name="proxy-replay",
+                                 env={"VERIF_PROXY_CAT": catalogue_file(ctx, cat), "VERIF_PROXY_BEHS": path})
+    tr = os.path.join(outdir, "proxy-traces.ndjson")
+    if not os.path.exists(tr) or os.path.getsize(tr) == 0:
+        if ctx.violations:
+            return  # the process died on a crash inside the repository code; that is the verdict
+        raise Infra("no proxy trace recorded")
+    lines = open(tr).read().splitlines()
+    n = sum(1 for line in lines if '"ev":"Reset"' in line)
+    r = ctx.tlc("submit", "ProxyLifecycleTrace", "ProxyLifecycleTrace.cfg", workers=1, env={"TRACE_FILE": tr}, count=False,
+                dfs=True, check=False, timeout=3000, label="trace-proxy")
+    stuck = r.records.get("STUCK", [])
+    if r.rc != 0 and not stuck and not r.violated:
+        raise Infra("proxy trace validation failed to run (rc=%d)\n%s" % (r.rc, "\n".join(r.out.splitlines()[-25:])))
+    if stuck or r.violated:
+        ev = stuck[0]["event"] if stuck else {}
+        at = stuck[0]["line"] if stuck else len(lines)
+        lo = at
+        while lo > 1 and '"ev":"Reset"' not in lines[lo - 1]:
+            lo -= 1
+        k = sum(1 for line in lines[:lo] if '"ev":"Reset"' in line) - 1
+        fields = ",".join("%s=%s" % (f, ev[f]) for f in ("res", "ok", "dead") if f in ev)
+        if ev.get("ev") == "Obs":
+            # what the code did (or failed to do) right before the observation that no state of the specification matches
+            prev = [json.loads(x) for x in lines[lo - 1:at - 1] if '"ev":"Obs"' not in x]
+            if prev:
+                fields = "after=" + prev[-1]["ev"] + "".join("/%s=%s" % (f, prev[-1][f]) for f in ("res", "ok", "dead") if f in prev[-1])
+        ctx.violation("proxy-trace:%s%s" % (ev.get("ev", r.violated), (":" + fields) if fields else ""),
+                      "a run of the real proxy is not a behaviour of ProxyLifecycle.tla: the recorded event %s cannot "
+                      "happen in (or, for an observation: does not match / is not quiescent in) any state the "
+                      "specification can be in after the events before it" % json.dumps(ev),
+                      {"gates": behs[k]["gates"] if 0 <= k < len(behs) else [], "steps": behs[k]["steps"] if 0 <= k < len(behs) else [],
+                       "stuck": stuck, "violated": r.violated, "trace_window": lines[max(lo - 1, at - 60):at + 2]})
+    else:
+        ctx.traces += n
